@@ -141,6 +141,21 @@ def install_monitors(node: Any) -> None:
 
     Linter.lint_fix_parsed = classmethod(lint_fix_parsed)  # type: ignore
 
+    orig_lr = Linter.lint_rendered.__func__
+
+    def lint_rendered(cls: Any, rendered: Any, rule_pack: Any, fix: bool = False, formatter: Any = None):
+        n = _MON["node"]
+        if n.knobs.get("cfg_probe"):
+            try:
+                n.events.append(["cfgobs", n.name, rendered.fname, probe_config(rendered.config)])
+            except SimCrash:
+                raise
+            except Exception as e:  # pragma: no cover
+                n.events.append(["cfgobs", n.name, rendered.fname, {"error": repr(e)}])
+        return orig_lr(cls, rendered, rule_pack, fix, formatter)
+
+    Linter.lint_rendered = classmethod(lint_rendered)  # type: ignore
+
     orig_lex = Lexer.lex
 
     def lex(self: Any, raw: Any):
@@ -576,4 +591,77 @@ def op_discover(node: Any, path: str, ignore_files: bool = True, exts: Optional[
     except Exception as e:
         out["exception"] = _exc_row(e)
     out["cwd"] = os.getcwd()
+    return out
+
+
+# ---- config observation (C27) -------------------------------------------------------
+
+PROBES = [
+    ["core", "max_line_length"],
+    ["core", "dialect"],
+    ["core", "rules"],
+    ["core", "exclude_rules"],
+    ["indentation", "tab_space_size"],
+    ["indentation", "indent_unit"],
+    ["layout", "type", "comma", "line_position"],
+    ["rules", "capitalisation.keywords", "capitalisation_policy"],
+    ["templater", "jinja", "context", "k1"],
+    ["templater", "jinja", "context", "k2"],
+]
+
+
+def probe_config(cfg: Any) -> dict:
+    out = {}
+    for path in PROBES:
+        cur: Any = cfg._configs
+        for p in path:
+            if not isinstance(cur, dict) or p not in cur:
+                cur = None
+                break
+            cur = cur[p]
+        if isinstance(cur, list):
+            cur = ",".join(str(x) for x in cur)
+        out[":".join(path)] = None if cur is None else str(cur)
+    return out
+
+
+def op_effective_config(node: Any, fname: str, handle: str = "root", overrides: Optional[dict] = None,
+                        extra_config: Optional[str] = None) -> dict:
+    """What Linter.load_raw_file_and_config computes for one file, via a shared root config."""
+    from sqlfluff.core import FluffConfig, Linter
+
+    out: dict[str, Any] = {}
+    try:
+        root = node.handles.get("cfg:" + handle)
+        if root is None:
+            root = FluffConfig.from_root(extra_config_path=extra_config, overrides=dict(overrides) if overrides else None)
+            node.handles["cfg:" + handle] = root
+        raw, cfg, enc = Linter.load_raw_file_and_config(fname, root)
+        out["values"] = probe_config(cfg)
+        out["root_values"] = probe_config(root)
+    except SimCrash:
+        raise
+    except Exception as e:
+        out["exception"] = _exc_row(e)
+    return out
+
+
+def op_lint_string(node: Any, sql: str, fname: str = "<string>", handle: str = "linter", overrides: Optional[dict] = None,
+                   extra_config: Optional[str] = None, fix: bool = False) -> dict:
+    install_monitors(node)
+    _mon_reset()
+    out: dict[str, Any] = {}
+    try:
+        linter = node.handles.get("linter:" + handle)
+        if linter is None:
+            linter = _mk_linter(node, overrides, extra_config)
+            node.handles["linter:" + handle] = linter
+        lf = linter.lint_string(sql, fname=fname, fix=fix)
+        out["violations"] = sorted(_violation_row(v) for v in lf.get_violations())
+        out["root_values"] = probe_config(linter.config)
+    except SimCrash:
+        raise
+    except Exception as e:
+        out["exception"] = _exc_row(e)
+    out["mon"] = _mon_take()
     return out
